@@ -434,7 +434,11 @@ func box2(v value) *value { return &v }
 
 func posDetail(p *pathState) string {
 	if p.sched != nil && p.sched.cur != nil && p.lastFrame != nil {
-		return " @ " + stackString(p.lastFrame)
+		s := stackString(p.lastFrame)
+		if len(s) > 600 {
+			s = s[:600] + "…"
+		}
+		return " @ " + s
 	}
 	return ""
 }
